@@ -114,6 +114,7 @@ class Engine:
         self.pc = []
         self.notes = []
         self.try_without_pc = True
+        self.memo = {}
 
     # ---- driving
     def run(self, fn, catch=(Exception,)):
@@ -130,6 +131,7 @@ class Engine:
                 self.pos = 0
                 self.pc = []
                 self.notes = []
+                self.memo = {}
                 sx.reset_path()
                 ENGINE = self
                 val = exc = None
@@ -186,6 +188,14 @@ class Engine:
             return True
         if z3.is_false(cond):
             return False
+        key = ('b', cond.get_id())
+        if key in self.memo:
+            return self.memo[key]
+        d = self._branch(cond, free)
+        self.memo[key] = d
+        return d
+
+    def _branch(self, cond, free):
         if self.pos < len(self.prefix):
             d = self.prefix[self.pos]
         elif free:
@@ -219,6 +229,14 @@ class Engine:
         expr = z3.simplify(expr)
         if z3.is_int_value(expr):
             return expr.as_long()
+        key = ('i', expr.get_id())
+        if key in self.memo:          # the same term was already decided on this path
+            return self.memo[key]
+        d = self._choose(expr, lo, hi, free)
+        self.memo[key] = d
+        return d
+
+    def _choose(self, expr, lo, hi, free):
         if self.pos < len(self.prefix):
             d = self.prefix[self.pos]
         elif free:
